@@ -1,7 +1,7 @@
 (* C02 - property theorems only.  `feeds p s [] chunks` is a sequence of data_received calls on a
    fresh connection, `run p s bytes` the same bytes in one read; both return the messages handed
    to the layer above, the parser state (cipher counters) and the residual buffer. *)
-From Coq Require Import NArith List Bool Arith Lia.
+From Coq Require Import NArith ZArith List Bool Arith Lia.
 From PV Require Import Common.Cases Common.Framing Common.Endian.
 From PV Require Import C02.Model C02.Spec C02.ProofsBase C02.ProofsLaws C02.ProofsHttp C02.ProofsLayer C02.ProofsSpec C02.ProofsRoundtrip.
 Import ListNotations.
